@@ -38,7 +38,15 @@ func H_C12_SafeRetained(v *sym.V) {
 	b := build(v, g, "e")
 	e := b.Err
 	tag := b.Kinds[0].String()
-	switch v.Choice("stage", 6) {
+	switch v.Choice("stage", 7) {
+	case 6:
+		// two domain annotations directly on top of each other: both names are safe strings
+		e = errors.WithDomain(errors.WithDomain(e, errors.NamedDomain("domInner")), errors.NamedDomain("domOuter"))
+		b.Safe = append(b.Safe, "domInner", "domOuter")
+		if v.Choice("domains-hop", 2) == 1 {
+			e = wire.Hop(e)
+		}
+		tag += "/stacked-domains"
 	case 4:
 		// the carrier is the secondary error of a secondary error
 		e = errors.CombineErrors(errors.New("p1"), errors.CombineErrors(errors.New("p2"), e))
@@ -64,7 +72,7 @@ func H_C12_SafeRetained(v *sym.V) {
 	}
 	txt := reportText(e)
 	for _, s := range b.Safe {
-		if sym.HasByteIn(s, 1, 8) { // a token (concrete fillers are not tracked)
+		if sym.HasByteIn(s, 1, 8) || (len(s) > 3 && s[:3] == "dom") { // a token or a domain name (other concrete fillers are not tracked)
 			v.Assert("safe-retained@"+tag, sym.Contains(txt, s))
 		}
 	}
